@@ -302,6 +302,32 @@ def main(tier, seed):
                         if a != b:
                             bad = "untouched instance #%d changed: %s (was %s)" % (i["id"], got.get(i["id"]), base_dump.get(i["id"]))
                             break
+            # externally mapped instances: the severity STEPcomplex::STEPread returned vs complex_sev (coq/FileSev.v) applied
+            # to what the guarded hook says reading each part gave (severity, per attribute: severity and derived or not)
+            cparts, cown, cinst = {}, {}, {}
+            for l_ in err.decode("latin-1").split("\n"):
+                h_ = l_.split()
+                if h_[:1] == ["VERIF-CPART"]:
+                    cparts.setdefault(int(h_[1]), []).append((h_[2], int(h_[3]), h_[4:]))
+                elif h_[:1] == ["VERIF-COWN"]:
+                    cown[int(h_[1])] = int(h_[2])
+                elif h_[:1] == ["VERIF-CINST"]:
+                    cinst.setdefault(int(h_[1]), int(h_[2]))
+            for cid, own_ in cown.items():
+                if cid not in cinst:
+                    continue
+                req = "X %d %s" % (own_, " ".join("%d:%s" % (sv, ",".join(al)) for (_nm, sv, al) in cparts.get(cid, [])))
+                mx = run_model([req])[0].split()
+                class_hist["complex_merge_compared"] = class_hist.get("complex_merge_compared", 0) + 1
+                if any(sv < 3 for (_nm, sv, al) in cparts.get(cid, [])):
+                    class_hist["complex_merge_with_part_error"] = class_hist.get("complex_merge_with_part_error", 0) + 1
+                if len(mx) >= 3 and "0" in mx[2] and any(sv < 3 and c_ == "0" for (_n, sv, _a), c_ in zip(cparts.get(cid, []), mx[2])):
+                    class_hist["complex_merge_tolerated"] = class_hist.get("complex_merge_tolerated", 0) + 1
+                if len(mx) < 2 or int(mx[1]) != cinst[cid]:
+                    disagreements += 1
+                    res.violation("model complex_sev and STEPcomplex::STEPread disagree on #%d (%s: %s): parts %s own %d, reader %d, model %s" % (
+                                  cid, cls, desc, cparts.get(cid), own_, cinst[cid], mx[1:2]),
+                                  {"theorem_or_correspondence": "correspondence C03: coq/FileSev.v complex_sev vs STEPcomplex::STEPread"}, found_input=False)
             if bad:
                 oracle_fail += 1
                 os.makedirs(res.replay_dir, exist_ok=True)
@@ -313,7 +339,7 @@ def main(tier, seed):
             if len(samples) < 4 and evals % 37 == 1:
                 samples.append({"class": cls, "what": desc, "file_severity": file_sev, "p21read_exit": rc2})
             # correspondence with the bookkeeping model
-            hooks = [l.split() for l in err.decode("latin-1").split("\n") if l.startswith("VERIF-")]
+            hooks = [l.split() for l in err.decode("latin-1").split("\n") if l.startswith("VERIF-INST ") or l.startswith("VERIF-CINST ")]
             hs = {}
             for h in hooks:
                 hs.setdefault(int(h[1]), ("S" if h[0] == "VERIF-INST" else "C") + h[2])
